@@ -24,6 +24,7 @@ from ..core import (
     finding_func,
     norm,
     own_calls,
+    own_nodes,
     qual_of,
     walk_no_nested,
 )
@@ -171,6 +172,23 @@ def rule_chain(program, ctx, prop=P, rid="C03.chain"):
     if outer is None and not direct:
         ctx.bad(finding_func(prop, rid, gv, "the validator loop is never awaited/called"))
         return
+    # (c') every normal exit of the coroutine has awaited the chain (no cache / early return around it)
+    if outer is not None:
+        ocfg = cfg_of(outer)
+        gates = {}
+        for n_, d_ in ocfg.g.nodes(data=True):
+            s_ = d_["ast"]
+            if s_ is not None and d_["kind"] == "stmt":
+                for a_ in own_nodes(s_):
+                    if isinstance(a_, ast.Await) and isinstance(a_.value, ast.Call) and (call_matches(a_.value, "run_in_executor") or (inner_fn is not None and isinstance(a_.value.func, ast.Name) and a_.value.func.id == inner_fn.name)):
+                        gates[n_] = set(NORMAL)
+        path = must_pass(ocfg, gates, [ocfg.exit])
+        if path:
+            last = next((ocfg.ast_of(x) for x in reversed(path) if ocfg.ast_of(x) is not None), outer)
+            ctx.bad(finding_at(prop, rid, last, "the validation coroutine can return without having run the validator chain (memoised verdict / early return): "
+                               "time- and state-dependent validators are skipped for a re-sent event", path=ocfg.describe_path(path)[-5:]))
+        else:
+            ctx.ok(rid, outer, "every normal exit of the coroutine awaited the chain")
     # (d) returned
     rets = [n for n in walk_no_nested(gv) if isinstance(n, ast.Return)]
     good = [r for r in rets if isinstance(r.value, ast.Name) and outer is not None and r.value.id == outer.name]
@@ -478,6 +496,9 @@ def rule_stored(program, ctx):
 
 
 def run(program, ctx):
+    from . import c04
+
+    c04.rule_canonical(program, ctx, prop=P, rid="C03.canonical")
     rule_gate(program, ctx)
     rule_stored(program, ctx)
     rule_chain(program, ctx)
